@@ -324,9 +324,30 @@ vfps::ProgramOptions::ProgramOptions() :
  */
 bool vfps::ProgramOptions::parse(int ac, char** av)
 {
+    // lexical_cast accepts a minus sign for unsigned types and wraps around:
+    // refuse it like any other malformed value (of options not given before)
+    auto checked = [this](const po::parsed_options& parsed) {
+        for (const auto& opt : parsed.options) {
+            auto desc = parsed.description->find_nothrow(opt.string_key,false);
+            auto sem = dynamic_cast<const po::typed_value_base*>(
+                        desc ? desc->semantic().get() : nullptr);
+            if (sem == nullptr || sem->value_type() != typeid(uint32_t)
+                || (_vm.count(opt.string_key) && !_vm[opt.string_key].defaulted())) {
+                continue;
+            }
+            for (const auto& val : opt.value) {
+                if (!val.empty() && val.front() == '-') {
+                    po::invalid_option_value error(val);
+                    error.set_option_name(opt.string_key);
+                    throw error;
+                }
+            }
+        }
+        return parsed;
+    };
     // no positional options are declared: a bare word is an error, not ignored
-    po::store(po::command_line_parser(ac, av).options(_commandlineopts)
-              .positional(po::positional_options_description()).run(), _vm);
+    po::store(checked(po::command_line_parser(ac, av).options(_commandlineopts)
+              .positional(po::positional_options_description()).run()), _vm);
     po::notify(_vm);
 
     if (_vm.count("help")) {
@@ -365,7 +386,7 @@ bool vfps::ProgramOptions::parse(int ac, char** av)
                 std::string message = "Loading configuration from \""
                                      + _configfile + "\".";
                 Display::printText(message);
-                store(parse_config_file(ifs, _cfgfileopts), _vm);
+                store(checked(parse_config_file(ifs, _cfgfileopts)), _vm);
                 // legacy names stand in for the current names
                 // unless those have been given explicitly
                 for (const auto& alias : {
